@@ -239,6 +239,8 @@ def execute(case):
             v.planned("short" if sf != 2 else "eintr")
 
         # ---- files mode defines W
+        # legal partial writes on the files themselves (and EINTR): the emitter must still store the whole text
+        file_plan = {0: None, 1: ["* write 0 * short 5,1,64"], 2: ["* write 1 * eintr 2"], 3: ["* write 0 * short 1"]}[sf]
         rf, df = run("files", rootargs, readonly=False)
         if rf.exit != 0:
             v.probe("files-mode-error")
@@ -285,7 +287,13 @@ def execute(case):
         if listed != sorted(W) and rl.exit == 0:
             v.add("C06:files-l-names", "-l printed %s, files rewritten %s" % (listed, sorted(W)))
         # ---- backup
-        rb, dbk = run("backup", ["--backup"]+ rootargs, readonly=False)
+        if file_plan:
+            rff, _ = run("files-shortwrites", rootargs, readonly=False, plan=file_plan)
+            for f in srcs:
+                cur = core.read_rel(sc.root, f)
+                if cur != (written[f] if f in W else orig[f]) and rff.exit == 0:
+                    v.add("C06:files-text-under-short-writes", "%s: bytes stored under short/interrupted writes differ from the fault-free files-mode text (exit 0)" % f)
+        rb, dbk = run("backup", ["--backup"]+ rootargs, readonly=False, plan=file_plan)
         for f in srcs:
             cur = core.read_rel(sc.root, f)
             if cur != (written[f] if f in W else orig[f]):
